@@ -7,8 +7,12 @@ from plan import PLAN, CLAIMS
 from claims import NOT_APPLICABLE, HOOK_COMMITS
 
 ROOT = os.path.dirname(HERE)
+# only properties listed in driver/enabled.txt are claimed (a plan file may exist while its workload is still being built)
+ENABLED = [l.strip() for l in open(os.path.join(HERE, "enabled.txt")) if l.strip() and not l.startswith("#")]
 checks = []
 for pid in sorted(PLAN):
+    if pid not in ENABLED:
+        continue
     c = CLAIMS[pid]
     checks.append(dict(
         property_id=pid,
@@ -21,14 +25,14 @@ for pid in sorted(PLAN):
         level_note=c["note"],
         technique=c["technique"],
     ))
-na = [dict(property_id=p, reason=r) for p, r in sorted(NOT_APPLICABLE.items()) if p not in PLAN]
+na = [dict(property_id=p, reason=r) for p, r in sorted(NOT_APPLICABLE.items()) if p not in ENABLED or p not in PLAN]
 m = dict(
     version=1,
     setup_cmd="./check --build",
     hooks=dict(guard="verif (Go build tag)", enable="go build -tags verif (harness/go.mod replaces github.com/emmansun/gmsm with /repo; every check rebuilds the child binary from /repo's working tree)",
                baseline_off_cmd="cd /repo && GOFLAGS=-mod=mod GOPROXY=off GOSUMDB=off go test -json -vet=off -count=1 -timeout 25m ./...",
                source_commits=HOOK_COMMITS, add_only=True),
-    engines=[dict(name="vchild", path="/verif/harness/cmd/vchild", serves_properties=sorted(PLAN),
+    engines=[dict(name="vchild", path="/verif/harness/cmd/vchild", serves_properties=sorted(p for p in PLAN if p in ENABLED),
                   kind_free_text="Go child binary (one process per build variant x dispatch configuration x workload x shard) executing the real library "
                                  "under generated/hostile/stress workloads with reference-model, accept-set, history, panic/fault, guard-page and "
                                  "race-detector monitors; python3 driver plans, spawns, attributes crashes, compares configurations and writes evidence")],
